@@ -330,6 +330,7 @@ func rewriteSync(path string, src []byte, chans, points bool) ([]byte, []string,
 }
 
 func addImport(f *ast.File, path, name string) {
+	_ = name
 	for _, im := range f.Imports {
 		if p, _ := strconv.Unquote(im.Path.Value); p == path {
 			return
